@@ -13,38 +13,67 @@ from ._model import J, structures, structure_label, make_model, CDF, PDF, ICDF
 HD = "virocon.contours.HighestDensityContour"
 
 
-@contract(HD + ".cumsum_biggest_until", ["C02"], [dict(reach=r) for r in ("reached", "not_reached")], name="hdc.cumsum_biggest_until")
+@contract(HD + ".cumsum_biggest_until", ["C02"], [dict(reach=r) for r in ("reached", "not_reached")] + [dict(reach=r, nd=nd) for nd in (2, 3) for r in ("reached", "not_reached")],
+          name="hdc.cumsum_biggest_until")
 class CumsumBiggest(Contract):
     """cells are taken in descending order of their value; the largest prefix whose cumulated value is <= limit is
     marked with 1 (everything else 0); the returned value is the smallest marked one; a RuntimeWarning is emitted
-    iff even the whole array does not reach the limit"""
+    iff even the whole array does not reach the limit.  1-D arrays and 2-D / 3-D grids (through ravel / unravel_index:
+    the statement is about the flat position rav(cell) of every cell)"""
 
     def case_label(self, case):
-        return case["reach"]
+        return case["reach"] + (f",{case['nd']}-D grid" if case.get("nd") else "")
 
     def inputs(self, itp, case):
         cx = itp.cx
-        self.N = cx.sym("N", "int")
-        cx.assume(T.ge(self.N, 1))
-        self.arr = sym_array(cx, "cellprob", (self.N,))
+        nd = case.get("nd", 1)
         q = z3.Int("pq")
-        cx.assume(z3.ForAll([q], z3.Implies(z3.And(q >= 0, q < self.N), self.arr.uf(q) >= 0), patterns=[self.arr.uf(q)]), "cell probabilities are non-negative")
         self.limit = real(cx, "limit")
-        cx.assume(z3.ForAll([q], z3.Implies(z3.And(q >= 0, q < self.N), self.arr.uf(q) <= self.limit.t), patterns=[self.arr.uf(q)]),
-                  "requires: no single cell exceeds the limit (otherwise the code indexes an empty selection)")
+        if nd == 1:
+            self.N = cx.sym("N", "int")
+            cx.assume(T.ge(self.N, 1))
+            self.arr = sym_array(cx, "cellprob", (self.N,))
+            cx.assume(z3.ForAll([q], z3.Implies(z3.And(q >= 0, q < self.N), self.arr.uf(q) >= 0), patterns=[self.arr.uf(q)]), "cell probabilities are non-negative")
+            cx.assume(z3.ForAll([q], z3.Implies(z3.And(q >= 0, q < self.N), self.arr.uf(q) <= self.limit.t), patterns=[self.arr.uf(q)]),
+                      "requires: no single cell exceeds the limit (otherwise the code indexes an empty selection)")
+            return [self.arr, self.limit], {}
+        ext = [cx.sym(f"n{ax}", "int") for ax in range(nd)]
+        for e in ext:
+            cx.assume(T.ge(e, 1))
+        self.arr = sym_array(cx, "cellprob", tuple(ext))
+        ii = [z3.Int(f"pq{ax}") for ax in range(nd)]
+        rng = z3.And(*[z3.And(i >= 0, i < e) for i, e in zip(ii, ext)])
+        cx.assume(z3.ForAll(ii, z3.Implies(rng, z3.And(self.arr.uf(*ii) >= 0, self.arr.uf(*ii) <= self.limit.t)), patterns=[self.arr.uf(*ii)]),
+                  "cell probabilities are non-negative; requires: no single cell exceeds the limit")
         return [self.arr, self.limit], {}
+
+    def flat_view(self, itp, case):
+        """(N, a): number of cells and the value at flat position q (C order)"""
+        cx = itp.cx
+        nd = case.get("nd", 1)
+        if nd == 1:
+            return self.N, self.arr.uf
+        uid = cx.ghost.get("boxes", {}).get("|".join(str(T.z(e).sexpr()) for e in self.arr.shape))
+        if uid is None:
+            return None, None
+        self.unrav = [T.uf(f"unrav{ax}_{uid}", "int", "int") for ax in range(nd)]
+        self.rav = T.uf(f"rav_{uid}", *(["int"] * nd + ["int"]))
+        N = z3.Int(f"boxsize_{uid}")
+        cx.fact(N >= 1, "numpy:ravel (a box with positive extents has at least one cell)")
+        return N, (lambda q: self.arr.uf(*[u(q) for u in self.unrav]))
 
     def post(self, itp, case, inp, out):
         cx = itp.cx
-        N, lim = self.N, self.limit.t
+        lim = self.limit.t
+        nd = case.get("nd", 1)
         info = itp.scratch.get("argsort_info")
         cs = itp.scratch.get("cumsum_info")
-        if info is None or cs is None:
+        N, a = self.flat_view(itp, case)
+        if info is None or cs is None or N is None:
             cx.oblige("post.structure", False, "post", f"{out.outcome}: {out.exc} {out.msg}")
             return
         perm, inv = info
         c = cs
-        a = self.arr.uf
         s = lambda k: a(perm(N - 1 - k))  # descending order statistics
         k, k2 = z3.Ints("mk mk2")
         # lemma (induction on k, base + step): the cumulative sums are non-decreasing
@@ -69,15 +98,29 @@ class CumsumBiggest(Contract):
         cx.fact(z3.ForAll([k], z3.Implies(z3.And(k >= 0, k < N), (c(k) <= lim) == (k < m)), patterns=[c(k)]), "lemma:count of a prefix mask is its length (paper proof)")
         cx.oblige("post.content", z3.Implies(m >= 1, c(m - 1) <= lim), "post", "the marked cells' total (prefix sum) is at most the limit")
         cx.oblige("post.tight", z3.Implies(z3.And(m >= 0, m < N), c(m) > lim), "post", "adding the densest unmarked cell would exceed the limit")
-        b = cx.fresh("b", "int")
-        cx.assume(T.land(T.ge(b, 0), T.lt(b, N)))
+        if nd == 1:
+            b = cx.fresh("b", "int")
+            cx.assume(T.land(T.ge(b, 0), T.lt(b, N)))
+            cell = (b,)
+        else:
+            # an arbitrary cell of the grid and its flat position
+            cell = tuple(cx.fresh(f"b{ax}", "int") for ax in range(nd))
+            cx.assume(T.land(*[T.land(T.ge(i, 0), T.lt(i, e)) for i, e in zip(cell, self.arr.shape)]))
+            b = self.rav(*cell)
+            cx.oblige("post.result_shape", isinstance(fields, SArr) and fields.ndim == nd and all(cx.valid(T.eq(x, y)) for x, y in zip(fields.shape, self.arr.shape)), "post",
+                      "the marks have the shape of the grid")
         rank_desc = N - 1 - inv(b)
         if hasattr(fields, "fancy_instance"):
             cx.fact(fields.fancy_instance(rank_desc), "numpy:fancy-store (instance at the descending rank of b)")
-        cx.oblige("post.mask", T.eq(fields.get((b,)), z3.If(rank_desc < m, z3.RealVal(1), z3.RealVal(0))), "post",
+        cx.oblige("post.mask", T.eq(fields.get(cell), z3.If(rank_desc < m, z3.RealVal(1), z3.RealVal(0))), "post",
                   "cell b is marked iff its position in the stable descending order is below m")
-        b2 = cx.fresh("b2", "int")
-        cx.assume(T.land(T.ge(b2, 0), T.lt(b2, N)))
+        if nd == 1:
+            b2 = cx.fresh("b2", "int")
+            cx.assume(T.land(T.ge(b2, 0), T.lt(b2, N)))
+        else:
+            cell2 = tuple(cx.fresh(f"c{ax}", "int") for ax in range(nd))
+            cx.assume(T.land(*[T.land(T.ge(i, 0), T.lt(i, e)) for i, e in zip(cell2, self.arr.shape)]))
+            b2 = self.rav(*cell2)
         cx.oblige("post.order", z3.Implies(z3.And(N - 1 - inv(b) < m, N - 1 - inv(b2) >= m), a(b) >= a(b2)), "post", "every marked cell is at least as large as every unmarked cell")
         cx.oblige("post.last", z3.Implies(m >= 1, T.zr(term_of(last)) == s(m - 1)), "post", "the returned value is the smallest marked value")
         cx.oblige("frame.array", self.arr.buf.writes == 0, "frame", "the input array is not written")
@@ -99,9 +142,18 @@ class CumsumBiggest(Contract):
                 a = a / a.sum() * float(rng.choice([0.5, 0.9, 1.0]))
             if a.max() > limit:
                 continue
+            nd = case.get("nd", 1)
+            if nd > 1:
+                # same values on an anisotropic N-D grid (zero-padded to a full box)
+                shape = [(2, 3), (3, 2), (1, 4), (2, 2, 2), (1, 3, 2), (3, 1, 2)][trial % 3 + (3 if nd == 3 else 0)]
+                size = int(np.prod(shape))
+                a = np.r_[a, np.zeros(max(0, size - len(a)))][:size].reshape(shape)
             with warnings.catch_warnings(record=True) as w:
                 warnings.simplefilter("always")
                 f, last = H.cumsum_biggest_until(a, limit)
+            if f.shape != a.shape:
+                bad = (a.tolist(), limit, f.tolist(), "shape of the marks differs from the grid")
+                break
             sel = f == 1
             tot = a[sel].sum()
             ok = tot <= limit + 1e-12 and (sel.all() or tot + a[~sel].max() > limit - 1e-12) and (sel.all() or a[sel].min() >= a[~sel].max()) \
